@@ -26,13 +26,16 @@ RULE = ("states = (weight vector, hash position) pairs driven through the compil
 BOUNDS = {"quick": dict(N=3, coarse=10, ids=1024), "thorough": dict(N=4, coarse=12, ids=4096)}
 
 
-def prog_for(v, salt=None):
-    return ("prog", "e", salt, ("uid",), ("ret", tuple((f"g{i}", w) for i, w in enumerate(v))))
+def prog_for(v, salt=None, labels=None):
+    labels = labels or [f"g{i}" for i in range(len(v))]
+    return ("prog", "e", salt, ("uid",), ("ret", tuple(zip(labels, v))))
 
 
-def check_vector(acc, v, coarse, nids, hs):
+def check_vector(acc, v, coarse, nids, hs, labels=None):
     ws = ew.fr(v)
-    ast = prog_for(v)
+    unique = labels is None
+    labels = labels or [f"g{i}" for i in range(len(v))]
+    ast = prog_for(v, labels=labels)
     text = rp.render(ast)
     acc.add("programs")
     b = impl.build(text)
@@ -40,7 +43,6 @@ def check_vector(acc, v, coarse, nids, hs):
         acc.violation({"kind": "vector", "sub": "build", "text": text, "observed": list(b)})
         return
     ev = b[1]
-    labels = {f"g{i}": i for i in range(len(v))}
     hit = set()
     ks = ew.grid(ws, coarse_bits=coarse)
     calls0 = hs.calls
@@ -51,16 +53,18 @@ def check_vector(acc, v, coarse, nids, hs):
             out = impl.call(ev, {"uid": "x"})
             ex = sem.part_exact(ws, k)
             allowed = {ex} if sem.float_exact(ws, k) else sem.part_allowed(ws, k)
-            got = labels.get(out[1]) if out[0] == "ok" and isinstance(out[1], str) else None
-            if got is None or got not in allowed:
-                acc.violation({"kind": "grid", "sub": "eval", "text": text, "k": k, "weights": v,
+            got = None
+            if out[0] == "ok":
+                got = next((i for i in sorted(allowed) if oracle.same_value(out[1], labels[i])), None)
+            if got is None:
+                acc.violation({"kind": "grid", "sub": "eval", "text": text, "k": k, "weights": v, "labels": labels,
                                "observed": short(repr(out)), "why": f"position k={k} (u=k/2^32): exact group {ex}, acceptable {sorted(allowed)}"})  # fmt: skip
             else:
                 hit.add(got)
                 acc.outcomes.add(f"{len(v)}:{got}")
     if hs.calls == calls0:
         acc.add("seam_ineffective")
-    else:
+    elif unique:
         # strict clause: a group whose exact interval holds >= 2 grid points is selectable
         T = sum(ws)
         c = Fraction(0)
@@ -84,9 +88,35 @@ def check_vector(acc, v, coarse, nids, hs):
 def _work(units):
     acc = progcheck.Acc()
     hs = seam.HashSeam()
-    for v, coarse, nids in units:
-        check_vector(acc, v, coarse, nids, hs)
+    for u in units:
+        v, coarse, nids = u[:3]
+        check_vector(acc, v, coarse, nids, hs, labels=(u[3] if len(u) > 3 else None))
     return acc.out()
+
+
+# weights with several significant digits at small / large magnitudes (decimal-place bookkeeping, scaling)
+SPECIAL = ["0.000025", "0.00005", "0.0000000015", "123456.789", "0.3333333", "0.1000001", "99999999.5", "0.0000002", "0.000000999", "1.000000001"]
+# repeated / look-alike group labels in one return statement (the partition is by POSITION, not by label)
+REPEATS = [(["1", "1", "2"], ["a", "b", "a"]), (["0", "1", "1"], ["a", "b", "a"]), (["1", "1", "1", "1"], ["a", "b", "a", "b"]), (["1", "2", "1"], ["a", "a", "b"]),
+           (["1", "1", "1", "3"], ["a", "b", "b", "a"]), (["1", "1", "1"], [1, 1.0, 1]), (["2", "1", "1"], [0, "0", 0.0]), (["1", "0", "1", "0", "1"], ["x", "x", "y", "y", "x"]),
+           (["0.5", "0.5", "1"], ["", " ", ""]), (["1"] * 8, ["a", "b", "c", "a", "b", "c", "a", "b"])]
+
+
+def special_vectors():
+    out = []
+    for s in SPECIAL:
+        for w in ew.W + SPECIAL:
+            if s != w:
+                out += [[s, w], [w, s]]
+        for w in ("1", "0", "0.5", "1000000000"):
+            for s2 in SPECIAL[:4]:
+                out.append([s, w, s2])
+    seen, res = set(), []
+    for v in out:
+        if tuple(v) not in seen and any(float(x) > 0 for x in v):
+            seen.add(tuple(v))
+            res.append(v)
+    return res
 
 
 def witness_check(res):
@@ -122,6 +152,8 @@ def run(res, tier):
     b = BOUNDS[tier]
     vs = list(ew.small_vectors(b["N"])) + ew.families()
     units = [(v, b["coarse"] if len(v) <= 3 else 8, b["ids"] if len(v) <= 3 else 256) for v in vs]
+    units += [(v, 8, 64) for v in special_vectors()]
+    units += [(v, 10, 256, labels) for v, labels in REPEATS]
     for w in pmap(_work, permuted(units, "c03"), chunk=8):
         res.merge_worker(w)
     witness_check(res)
@@ -145,7 +177,7 @@ def replay(data):
     if b[0] != "ok":
         return True, f"construction fails {b}"
     hs = seam.HashSeam()
-    labels = {f"g{i}": i for i in range(len(v))}
+    labels = data.get("labels") or [f"g{i}" for i in range(len(v))]
     if kind == "grid":
         k = data["k"]
         with hs:
@@ -153,8 +185,8 @@ def replay(data):
             out = impl.call(b[1], {"uid": "x"})
         ex = sem.part_exact(ws, k)
         allowed = {ex} if sem.float_exact(ws, k) else sem.part_allowed(ws, k)
-        got = labels.get(out[1]) if out[0] == "ok" and isinstance(out[1], str) else None
-        return (got not in allowed), f"k={k}: got {out!r}, acceptable groups {sorted(allowed)}"
+        ok = out[0] == "ok" and any(oracle.same_value(out[1], labels[i]) for i in allowed)
+        return (not ok), f"k={k}: got {out!r}, acceptable groups {sorted(allowed)}"
     if kind == "unreachable":
         acc = progcheck.Acc()
         check_vector(acc, v, 10, 0, hs)
